@@ -269,7 +269,14 @@ def run_pmapns(case):
     pis = [float(Fraction(n, d)) for n, d in case["pi"]]
     names = [k for k in simple if k != "ref_cell"]
     vals = case["vals"]
-    rules = [dict(par_name=n, init=float(Fraction(*vals[i % len(vals)]))) for i, n in enumerate(names)]
+    consts = case.get("const") or [False]
+    rules = []
+    for i, n in enumerate(names):
+        v = float(Fraction(*vals[i % len(vals)]))
+        if consts[i % len(consts)]:   # as get_param_rules reports a constant term
+            rules.append(dict(par_name=n, value=v, is_constant=True))
+        else:
+            rules.append(dict(par_name=n, init=v))
     rules.append(dict(par_name="length", edge="a", init=7.0))
     out["rule_names"] = names
     try:
@@ -278,7 +285,14 @@ def run_pmapns(case):
     except Exception as e:  # noqa: BLE001
         out["proj"] = {"exc": exc_code(e)}
         return out
-    out["proj"] = sorted([r["par_name"], float(r["init"])] for r in new if r["par_name"] != "length")
+    # the number update_rule_value hands to a (free) rule of the rich model
+    proj = []
+    for r in new:
+        if r["par_name"] == "length":
+            continue
+        got = LF.update_rule_value(dict(par_name=r["par_name"], init=1.0), r)
+        proj.append([r["par_name"], float(got["init"])])
+    out["proj"] = sorted(proj)
     return out
 
 
@@ -369,6 +383,8 @@ def run_nested(case):
     for r in case.get("null_start", []):
         null.set_param_rule(**r)
     _optimise(null, case["null_opt"])
+    for r in case.get("null_post", []):   # e.g. a term held constant at its fitted value
+        null.set_param_rule(**r)
     out = dict(lnL_null=float(null.lnL), nfp_null=int(null.nfp))
     alt = make_lf(case["alt"], aln, tree)
     out["nfp_alt"] = int(alt.nfp)
@@ -415,6 +431,41 @@ def run_lfopt(case):
     after = float(lf.lnL)
     s, who = bounds_slack(lf)
     return dict(before=before, after=after, exc=exc, slack=s, slack_who=who)
+
+
+def run_lfbounds(case):
+    """bounds declared per scope, then scope-splitting rules that do not restate bounds, then optimisation: the
+    optimised value of every (parameter, edge) cell is reported; the driver's oracle tracks the declared bounds"""
+    aln, tree = _aln_tree(case)
+    lf = make_lf(dict(sm=case["sm"]), aln, tree)
+    defaults = {}
+    for r in lf.get_param_rules():
+        if "lower" in r and "upper" in r and r["par_name"] not in defaults:
+            defaults[r["par_name"]] = [float(r["lower"]), float(r["upper"])]
+    for st in case["steps"]:
+        st = dict(st)
+        if st.pop("op", "rule") == "time_het":
+            lf.set_time_heterogeneity(**st)
+        else:
+            lf.set_param_rule(**st)
+    edges = [e for e in lf.tree.get_node_names() if e != "root"]
+    # the bounds the likelihood function itself holds for every cell, before optimisation
+    held = {}
+    for par in case["pars"]:
+        held[par] = {}
+        for r in lf.get_param_rules():
+            if r["par_name"] != par or "lower" not in r:
+                continue
+            es = r.get("edges") if r.get("edges") is not None else r.get("edge")
+            es = edges if es is None else ([es] if isinstance(es, str) else list(es))
+            for e in es:
+                held[par][e] = [float(r["lower"]), float(r["upper"])]
+    before = float(lf.lnL)
+    exc = _optimise(lf, case["opt"])
+    values = {}
+    for par in case["pars"]:
+        values[par] = {e: float(lf.get_param_value(par, edge=e)) for e in edges}
+    return dict(defaults=defaults, values=values, held=held, before=before, after=float(lf.lnL), exc=exc, edges=edges)
 
 
 def run_hyp(case):
@@ -521,6 +572,8 @@ def run_case(case):
         return run_nested(case)
     if k == "lfopt":
         return run_lfopt(case)
+    if k == "lfbounds":
+        return run_lfbounds(case)
     if k == "hyp":
         return run_hyp(case)
     raise ValueError(k)
